@@ -21,7 +21,9 @@ Over ℝ (the statements of group 2 are generic in the scalar type: they never l
    the list order — return the same result team by team (`C04b_rate_teamPerm_stable`,
    `C04b_rate_teamPerm_tiefree`).  An `example` at the end shows that for BTP the condition on tied
    teams cannot be dropped.
-3. **Players within a team in a different order**, all five models: the team aggregates, hence
+3. **Players within a team in a different order**, all five models, any gamma callback whose value
+   does not depend on the order of the players it is handed (`GammaPermInv`: the tagged family, the
+   team-reading callback `gammaTeamSigma`, …; `…_tagged` versions have no hypothesis on gamma): the team aggregates, hence
    `(Ω, Δ)`, are unchanged, and every player gets the same posterior — at the level of `_compute`
    (`C04b_compute_playerPerm*`) and of `rate` (`C04b_rate_playerPerm*`).
 -/
@@ -47,7 +49,8 @@ theorem C04b_omegaDelta_teamPerm (K : Kind) (hK : K = .PL ∨ K = .BTF ∨ K = .
   have hget : ∀ i : Fin ts'.length, ts'[i] = ts[((finCongr hlen).trans σ) i] := by
     intro i; simp [hts']; rfl
   rw [eqv_omegaDelta_reindex K L P ts ts' ((finCongr hlen).trans σ)
-    (fun i => by rw [hget]) (fun i => by rw [hget]) (fun i => by rw [hget]) (Or.inl hfull)]
+    (fun i => by rw [hget]) (fun i => by rw [hget]) (fun i => by rw [hget])
+    (fun i => gam_sameCalls_of_eq _ (hget i)) (Or.inl hfull)]
   apply List.ext_getElem
   · simp [hlen]
   · intro k h1 h2
@@ -75,54 +78,73 @@ theorem C04b_teamAggs_playerPerm {teams teams' : List (List (Rating ℝ))}
         t.players.Perm t'.players) (teamAggs teams dense) (teamAggs teams' dense) :=
   eqv_teamAggs_forall₂ h dense
 
-/-- **`(Ω, Δ)` never reads the rosters**: for each of the five models `omegaDelta` depends only on
-the list of (mu, variance, rank) triples of the teams. -/
+/-- **`(Ω, Δ)` reads the rosters only through the gamma callback**: for each of the five models
+`omegaDelta` depends only on the list of (mu, variance, rank) triples of the teams and on what the
+gamma callback returns for each team (`gam_SameCalls`: the calls `gamma(c, n, mu, σ², team, rank)` for
+the two teams of a slot agree for all `c`, `n`). -/
 theorem C04b_omegaDelta_congr (K : Kind) (L : Leaves ℝ) (P : Params ℝ) (ts ts' : List (TeamAgg ℝ))
-    (h : ts.map (fun t => (t.mu, t.sig2, t.rank)) = ts'.map (fun t => (t.mu, t.sig2, t.rank))) :
+    (h : ts.map (fun t => (t.mu, t.sig2, t.rank)) = ts'.map (fun t => (t.mu, t.sig2, t.rank)))
+    (hg : List.Forall₂ (gam_SameCalls P.gamma) ts ts') :
     omegaDelta K L P ts = omegaDelta K L P ts' :=
-  eqv_omegaDelta_congr K L P ts ts' h
+  eqv_omegaDelta_congr K L P ts ts' h hg
 
-/-- **Reordering players leaves every team's `(Ω, Δ)` unchanged** (all five models). -/
+/-- **`(Ω, Δ)` never reads the rosters when gamma is one of the tagged family**: `omegaDelta` then
+depends only on the list of (mu, variance, rank) triples of the teams. -/
+theorem C04b_omegaDelta_congr_tagged (K : Kind) (L : Leaves ℝ) (P : Params ℝ) (hg : P.gamma.Tagged)
+    (ts ts' : List (TeamAgg ℝ))
+    (h : ts.map (fun t => (t.mu, t.sig2, t.rank)) = ts'.map (fun t => (t.mu, t.sig2, t.rank))) :
+    omegaDelta K L P ts = omegaDelta K L P ts' := by
+  refine eqv_omegaDelta_congr K L P ts ts' h ?_
+  have hl : ts.length = ts'.length := by simpa using congrArg List.length h
+  refine List.forall₂_of_length_eq_of_get hl (fun i h₁ h₂ => ?_)
+  have hk : (ts.map (fun t => (t.mu, t.sig2, t.rank)))[i]'(by simpa using h₁)
+      = (ts'.map (fun t => (t.mu, t.sig2, t.rank)))[i]'(by simpa using h₂) := by simp only [h]
+  simp only [List.getElem_map, Prod.mk.injEq] at hk
+  exact gam_sameCalls_tagged hg hk.2.1 hk.2.2
+
+/-- **Reordering players leaves every team's `(Ω, Δ)` unchanged** (all five models; any gamma
+callback that does not depend on the order in which the players are handed over, `GammaPermInv`). -/
 theorem C04b_omegaDelta_playerPerm (K : Kind) (L : Leaves ℝ) (P : Params ℝ)
+    (hg : GammaPermInv P.gamma)
     {teams teams' : List (List (Rating ℝ))} (h : List.Forall₂ List.Perm teams teams')
     (dense : List ℕ) :
     omegaDelta K L P (teamAggs teams dense) = omegaDelta K L P (teamAggs teams' dense) :=
-  eqv_omegaDelta_congr K L P _ _ (eqv_teamAggs_key h dense)
+  eqv_omegaDelta_congr K L P _ _ (eqv_teamAggs_key h dense) (gam_teamAggs_sameCalls hg h dense)
 
 /-- **Every player gets the same posterior, whatever the order of the players in the teams**
 (all five models).  There is ONE update function per team (`fs[i]`, which keeps the player's id)
 such that in both presentations the result for team `i` is `fs[i]` applied to each player of
 team `i`, slot by slot.  So a player's posterior depends on the player and on the game, not on
 where in the team list he is written. -/
-theorem C04b_compute_playerPerm_fn (K : Kind) (L : Leaves ℝ) (P : Params ℝ)
+theorem C04b_compute_playerPerm_fn (K : Kind) (L : Leaves ℝ) (P : Params ℝ) (hg : GammaPermInv P.gamma)
     {teams teams' : List (List (Rating ℝ))} (h : List.Forall₂ List.Perm teams teams')
     (dense : List ℕ) :
     ∃ fs : List (Rating ℝ → Rating ℝ), (∀ f ∈ fs, ∀ p, (f p).id = p.id) ∧
       compute K L P teams dense = List.zipWith (fun f t => t.map f) fs teams ∧
       compute K L P teams' dense = List.zipWith (fun f t => t.map f) fs teams' := by
-  obtain ⟨fs, -, hid, h1, h2⟩ := eqv_compute_fn K L P h dense
+  obtain ⟨fs, -, hid, h1, h2⟩ := eqv_compute_fn K L P hg h dense
   exact ⟨fs, hid, h1, h2⟩
 
 /-- **Each result team is a permutation of the other** (all five models). -/
-theorem C04b_compute_playerPerm (K : Kind) (L : Leaves ℝ) (P : Params ℝ)
+theorem C04b_compute_playerPerm (K : Kind) (L : Leaves ℝ) (P : Params ℝ) (hg : GammaPermInv P.gamma)
     {teams teams' : List (List (Rating ℝ))} (h : List.Forall₂ List.Perm teams teams')
     (dense : List ℕ) :
     List.Forall₂ List.Perm (compute K L P teams dense) (compute K L P teams' dense) := by
-  obtain ⟨fs, -, h1, h2⟩ := C04b_compute_playerPerm_fn K L P h dense
+  obtain ⟨fs, -, h1, h2⟩ := C04b_compute_playerPerm_fn K L P hg h dense
   rw [h1, h2]
   exact eqv_zipWith_map_perm fs h
 
 /-- **Players identified by id.**  If the ids within team `i` are distinct, then the result
 players of team `i` in the two presentations that carry the same id are equal (same posterior mu
 and sigma). -/
-theorem C04b_compute_playerPerm_id (K : Kind) (L : Leaves ℝ) (P : Params ℝ)
+theorem C04b_compute_playerPerm_id (K : Kind) (L : Leaves ℝ) (P : Params ℝ) (hg : GammaPermInv P.gamma)
     {teams teams' : List (List (Rating ℝ))} (h : List.Forall₂ List.Perm teams teams')
     (dense : List ℕ) (i : ℕ) (t r r' : List (Rating ℝ))
     (ht : teams[i]? = some t) (hnd : (t.map (·.id)).Nodup)
     (hr : (compute K L P teams dense)[i]? = some r)
     (hr' : (compute K L P teams' dense)[i]? = some r')
     (q q' : Rating ℝ) (hq : q ∈ r) (hq' : q' ∈ r') (hid : q.id = q'.id) : q = q' := by
-  obtain ⟨fs, hfid, h1, h2⟩ := C04b_compute_playerPerm_fn K L P h dense
+  obtain ⟨fs, hfid, h1, h2⟩ := C04b_compute_playerPerm_fn K L P hg h dense
   rw [h1] at hr
   rw [h2] at hr'
   exact eqv_fn_id h fs hfid i t r r' ht hnd hr hr' q q' hq hq' hid
@@ -136,7 +158,8 @@ variable {ρ : Type}
 outcome omitted / ranks / scores, any `tau`, with or without the `limit_sigma` clamp.  There is
 one id-preserving update function per team, `hs[i]`, such that for BOTH presentations of the
 rosters the returned team `i` is `hs[i]` applied to each listed player, slot by slot. -/
-theorem C04b_rate_playerPerm_fn (K : Kind) (L : Leaves ℝ) (P : Params ℝ) (le : ρ → ρ → Bool)
+theorem C04b_rate_playerPerm_fn (K : Kind) (L : Leaves ℝ) (P : Params ℝ) (hg : GammaPermInv P.gamma)
+    (le : ρ → ρ → Bool)
     (neg : ρ → ρ) {teams teams' : List (List (Rating ℝ))}
     (h : List.Forall₂ List.Perm teams teams') (oc : Outcome ρ) (o : CallOpts ℝ)
     (hoc : oc.fits teams.length) :
@@ -144,25 +167,27 @@ theorem C04b_rate_playerPerm_fn (K : Kind) (L : Leaves ℝ) (P : Params ℝ) (le
       rate K L P le neg teams oc o = List.zipWith (fun f t => t.map f) hs teams ∧
       rate K L P le neg teams' oc o = List.zipWith (fun f t => t.map f) hs teams' := by
   cases oc with
-  | omitted => exact eqv_rateCore_player_fn le K L P o h none (fun _ h => nomatch h)
-  | ranks r => exact eqv_rateCore_player_fn le K L P o h (some r) (fun _ h => by cases h; exact hoc)
+  | omitted => exact eqv_rateCore_player_fn le K L P hg o h none (fun _ h => nomatch h)
+  | ranks r => exact eqv_rateCore_player_fn le K L P hg o h (some r) (fun _ h => by cases h; exact hoc)
   | scores s =>
-    exact eqv_rateCore_player_fn le K L P o h (some (s.map neg))
+    exact eqv_rateCore_player_fn le K L P hg o h (some (s.map neg))
       (fun _ h => by cases h; rw [List.length_map]; exact hoc)
 
 /-- each returned team is a permutation of the team returned for the other presentation -/
-theorem C04b_rate_playerPerm (K : Kind) (L : Leaves ℝ) (P : Params ℝ) (le : ρ → ρ → Bool)
+theorem C04b_rate_playerPerm (K : Kind) (L : Leaves ℝ) (P : Params ℝ) (hg : GammaPermInv P.gamma)
+    (le : ρ → ρ → Bool)
     (neg : ρ → ρ) {teams teams' : List (List (Rating ℝ))}
     (h : List.Forall₂ List.Perm teams teams') (oc : Outcome ρ) (o : CallOpts ℝ)
     (hoc : oc.fits teams.length) :
     List.Forall₂ List.Perm (rate K L P le neg teams oc o) (rate K L P le neg teams' oc o) := by
-  obtain ⟨hs, -, h1, h2⟩ := C04b_rate_playerPerm_fn K L P le neg h oc o hoc
+  obtain ⟨hs, -, h1, h2⟩ := C04b_rate_playerPerm_fn K L P hg le neg h oc o hoc
   rw [h1, h2]
   exact eqv_zipWith_map_perm hs h
 
 /-- players identified by id: if the ids within team `i` are distinct, the players of the two
 returned teams `i` that carry the same id are equal (same posterior mu and sigma) -/
-theorem C04b_rate_playerPerm_id (K : Kind) (L : Leaves ℝ) (P : Params ℝ) (le : ρ → ρ → Bool)
+theorem C04b_rate_playerPerm_id (K : Kind) (L : Leaves ℝ) (P : Params ℝ) (hg : GammaPermInv P.gamma)
+    (le : ρ → ρ → Bool)
     (neg : ρ → ρ) {teams teams' : List (List (Rating ℝ))}
     (h : List.Forall₂ List.Perm teams teams') (oc : Outcome ρ) (o : CallOpts ℝ)
     (hoc : oc.fits teams.length) (i : ℕ) (t r r' : List (Rating ℝ))
@@ -170,10 +195,30 @@ theorem C04b_rate_playerPerm_id (K : Kind) (L : Leaves ℝ) (P : Params ℝ) (le
     (hr : (rate K L P le neg teams oc o)[i]? = some r)
     (hr' : (rate K L P le neg teams' oc o)[i]? = some r')
     (q q' : Rating ℝ) (hq : q ∈ r) (hq' : q' ∈ r') (hid : q.id = q'.id) : q = q' := by
-  obtain ⟨hs, hfid, h1, h2⟩ := C04b_rate_playerPerm_fn K L P le neg h oc o hoc
+  obtain ⟨hs, hfid, h1, h2⟩ := C04b_rate_playerPerm_fn K L P hg le neg h oc o hoc
   rw [h1] at hr
   rw [h2] at hr'
   exact eqv_fn_id h hs hfid i t r r' ht hnd hr hr' q q' hq hq' hid
+
+/-- `C04b_rate_playerPerm` for the tagged family: no hypothesis on gamma -/
+theorem C04b_rate_playerPerm_tagged (K : Kind) (L : Leaves ℝ) (P : Params ℝ) (hg : P.gamma.Tagged)
+    (le : ρ → ρ → Bool)
+    (neg : ρ → ρ) {teams teams' : List (List (Rating ℝ))}
+    (h : List.Forall₂ List.Perm teams teams') (oc : Outcome ρ) (o : CallOpts ℝ)
+    (hoc : oc.fits teams.length) :
+    List.Forall₂ List.Perm (rate K L P le neg teams oc o) (rate K L P le neg teams' oc o) :=
+  C04b_rate_playerPerm K L P (gam_tagged_permInv hg) le neg h oc o hoc
+
+/-- `C04b_rate_playerPerm_fn` for the tagged family: no hypothesis on gamma -/
+theorem C04b_rate_playerPerm_fn_tagged (K : Kind) (L : Leaves ℝ) (P : Params ℝ) (hg : P.gamma.Tagged)
+    (le : ρ → ρ → Bool)
+    (neg : ρ → ρ) {teams teams' : List (List (Rating ℝ))}
+    (h : List.Forall₂ List.Perm teams teams') (oc : Outcome ρ) (o : CallOpts ℝ)
+    (hoc : oc.fits teams.length) :
+    ∃ hs : List (Rating ℝ → Rating ℝ), (∀ f ∈ hs, ∀ p, (f p).id = p.id) ∧
+      rate K L P le neg teams oc o = List.zipWith (fun f t => t.map f) hs teams ∧
+      rate K L P le neg teams' oc o = List.zipWith (fun f t => t.map f) hs teams' :=
+  C04b_rate_playerPerm_fn K L P (gam_tagged_permInv hg) le neg h oc o hoc
 
 end ratePlayers
 
@@ -451,9 +496,9 @@ example (L : Leaves ℝ) :
 
 /-- part 3: the hypothesis `Forall₂ Perm` on a two-team game with the first team written in the
 other order -/
-example (K : Kind) (L : Leaves ℝ) (P : Params ℝ) (p q r : Rating ℝ) :
+example (K : Kind) (L : Leaves ℝ) (P : Params ℝ) (hg : P.gamma.Tagged) (p q r : Rating ℝ) :
     List.Forall₂ List.Perm (compute K L P [[p, q], [r]] [0, 1]) (compute K L P [[q, p], [r]] [0, 1]) :=
-  C04b_compute_playerPerm K L P
+  C04b_compute_playerPerm K L P (gam_tagged_permInv hg)
     (List.Forall₂.cons (List.Perm.swap q p []) (List.Forall₂.cons (List.Perm.refl _) .nil)) [0, 1]
 
 end OS
